@@ -19,11 +19,11 @@ CFG = {
     ],
     "harness_pkg": "hx-c20",
     "harness_bin": "c20",
-    "n": {"quick": 5000, "thorough": 150000},
+    "n": {"quick": 20000, "thorough": 300000},
     "exhaustive": {"quick": False, "thorough": False},
-    "trivial_tags": ["plain", "in-order", "ooo", "for", "provider"],
+    "trivial_tags": ["plain", "in-order", "ooo", "for", "provider", "router"],
     "rule": "pairs (70%) and triples (30%) of view programs over leaf / eager leaf / on_cleanup / Provider / Suspend(gate) / Suspense / "
-            "Resource(gate) / For / fragment, nested to depth 3 (4 in thorough), in-order or out-of-order streams, rendered CONCURRENTLY on one "
+            "Resource(gate) / For / fragment, nested to depth 3 (4 in thorough), one request in four routed (Router + FlatRoutes or Routes, the program being the matched route's view), in-order or out-of-order streams, rendered CONCURRENTLY on one "
             "thread through the real build_response; schedule = random sequence of start r / fire r g / ps r (r's tasks + stream to a fixpoint) / "
             "poll i (i-th ready task of the controlled executor, any request) / drop r, then end; plus, exhaustively, ALL 80 interleavings of "
             "{start r, fire r 1, ps r} for 6 (thorough: 8) fixed program pairs; every case is run in two build configurations (sandboxed-arenas with "
@@ -46,7 +46,7 @@ CFG = {
     ],
     "assumptions": [
         "one OS thread (thread-locals are per thread: cross-thread interleavings reduce to this case per thread; real multi-thread scheduling is out of reach)",
-        "router (flat_router/nested_router), ErrorBoundary, Transition, islands, OnceResource, LocalResource are not in the program grammar",
+        "router: one static route matched on the server (FlatRoutes::choose_ssr, Routes/Outlet); no navigation, no nested ParentRoute; ErrorBoundary, Transition, islands, OnceResource, LocalResource are not in the program grammar",
     ],
     "manifest": {
         "category": "proof",
@@ -56,11 +56,11 @@ CFG = {
                 "solo run (C20_wrapped_isolated, non-interference by induction over the schedule); Owner::with/with_observer restore on exit (C20_with_restores); "
                 "cleaning up one root disposes nothing of another, global or per-request arenas (C20_drop_frame); the unhypothesised statement is refuted by a "
                 "kernel-checked witness (C20_unwrapped_leaks_witness: one unwrapped task leaks). WHICH real call sites are wrapped is modelled, not verified: the "
-                "correspondence exercises the real call sites (build_response, Suspend, Suspense, Resource, Provider, For, on_cleanup; two arena configurations) "
+                "correspondence exercises the real call sites (build_response, Suspend, Suspense, Resource, Provider, For, Router/FlatRoutes/Routes, on_cleanup; two arena configurations) "
                 "under controlled interleavings and compares every response with its solo render; it found the view of a Suspend outside Suspense rendered "
                 "unwrapped by the stream (known findings F-C20-1/2).",
         "design_ref": "DESIGN.md §7 C20",
-        "note": "partial: proof is about the discipline model; the tie to the code is the differential run over the program grammar (router not included)",
+        "note": "partial: proof is about the discipline model; the tie to the code is the differential run over the program grammar",
         "technique": "Lean 4 proof (simulation/non-interference over all schedules) + refutation witness + differential correspondence with solo-render oracle",
     },
 }
